@@ -242,6 +242,10 @@ func Build(s *TypeSpec, v *Val) reflect.Value {
 
 type EqMode struct {
 	Strict bool // exact nil-ness, big-number internals (used for "value not modified" checks)
+	// BigFloatTol: a big.Float that is not exactly a float64 may come back rounded to the decimal
+	// digits its precision implies (CBE has no binary big-float type; the conversion is documented as
+	// policy-free rounding). Relative tolerance 10^(1-d), d = decimal digits of the precision.
+	BigFloatTol bool
 }
 
 func nanKindEq(a, b float64) bool {
@@ -422,6 +426,20 @@ func Check(a reflect.Value, s *TypeSpec, v *Val, m EqMode, path string) error {
 			return nil
 		}
 		if av.IsInf() != wv.IsInf() || av.Signbit() != wv.Signbit() || (!av.IsInf() && av.Cmp(wv) != 0) {
+			if _, acc := wv.Float64(); m.BigFloatTol && acc != big.Exact && !av.IsInf() && !wv.IsInf() && av.Signbit() == wv.Signbit() {
+				digits := int(float64(wv.Prec())*0.30103) - 1
+				if digits < 1 {
+					digits = 1
+				}
+				diff := new(big.Float).SetPrec(256).Sub(&av, wv)
+				diff.Abs(diff)
+				bound := new(big.Float).SetPrec(256).Abs(wv)
+				scale := new(big.Float).SetPrec(256).SetInt(new(big.Int).Exp(big.NewInt(10), big.NewInt(int64(digits-1)), nil))
+				bound.Quo(bound, scale)
+				if diff.Cmp(bound) <= 0 {
+					return nil
+				}
+			}
 			return bad("big.Float %v, expected %v", ev.BigFloatToText(&av), v.Num)
 		}
 	case "apd":
